@@ -28,8 +28,11 @@ class Module:
     text: str
     tree: ast.Module
     lines: list = field(default_factory=list)
+    normalised: bool = False
 
     def segment(self, node) -> str:
+        if self.normalised:
+            return ast.unparse(node)
         try:
             return ast.get_source_segment(self.text, node) or ast.unparse(node)
         except Exception:
@@ -70,6 +73,11 @@ class Repo:
             if name.endswith('.__init__'):
                 name = name[:-9]
             self.modules[rel] = Module(rel, name, text, tree, text.splitlines())
+        from . import normalise
+        self.norm_log = normalise.apply(self.modules)
+        if self.norm_log:
+            for m in self.modules.values():
+                m.normalised = True
 
     # ------------------------------------------------------------------ lookups
     def module(self, path: str) -> Module:
